@@ -3818,27 +3818,43 @@ def _fix_duplicate_regular_imports(source: str) -> str:
     """Remove duplicate plain imports from the same module."""
     root = core.parse(source)
 
-    import_aliases = collections.defaultdict(set)
     import_nodes = collections.defaultdict(list)
 
-    for node in core.walk(root, ast.Import):
+    # An import is only a duplicate of one that has certainly been run before it: an earlier
+    # one among the same statements, or an earlier one on module level.
+    containers = {}
+    for parent in core.walk(root, ast.AST):
+        for field in ("body", "orelse", "finalbody"):
+            children = getattr(parent, field, None)
+            if isinstance(children, list):
+                for child in children:
+                    containers[child] = (parent, field)
+
+    for node in sorted(core.walk(root, ast.Import), key=lambda n: (n.lineno, n.col_offset)):
         for alias in node.names:
             asname = (
                 alias.asname
                 if alias.asname != alias.name and alias.asname is not None
                 else alias.name
             )
-            name = alias.name
-
-            import_nodes[asname].append(node)
-            import_aliases[name].add(asname)
+            import_nodes[(alias.name, asname)].append(node)
 
     replacements = {}
     removals = set()
 
-    for asname, nodes in import_nodes.items():
+    for (_, asname), nodes in import_nodes.items():
         if len(nodes) > 1:
-            for node in nodes[1:]:
+            kept = []
+            for node in nodes:
+                if node in kept:
+                    continue  # The same name twice in one statement
+                if not any(
+                    containers.get(other) in (containers.get(node), (root, "body"))
+                    for other in kept
+                ):
+                    kept.append(node)
+                    continue
+
                 new_aliases = {
                     (alias.name, alias.asname if alias.asname != alias.name else None)
                     for alias in node.names
